@@ -95,16 +95,16 @@ def Term.generalizeL : List Term → List Ty
 end
 
 mutual
-def Term.closed : Term → Bool
+def Term.isClosed : Term → Bool
   | .var _ => false
-  | .app _ args => Term.closedL args
-def Term.closedL : List Term → Bool
+  | .app _ args => Term.isClosedL args
+def Term.isClosedL : List Term → Bool
   | [] => true
-  | t :: ts => Term.closed t && Term.closedL ts
+  | t :: ts => Term.isClosed t && Term.isClosedL ts
 end
 
 /-- `t in language.canon` for a normalised type: only variable-free types can be members -/
-def inCanon (G : GLang) (t : Term) : Bool := t.closed && memTy t.generalize G.canon
+def inCanon (G : GLang) (t : Term) : Bool := t.isClosed && memTy t.generalize G.canon
 
 /-- `Language.uri(t)` for a type -/
 def typeUri (G : GLang) (t : Term) : Except GErr Node :=
